@@ -34,6 +34,7 @@ package ro
 //@   props C04 C05
 //@   binds obsA obsB
 //@   calls Just MergeAll fn:t0
+//@   params obsA
 //@   track call.ANY callfn.ANY
 //@   ensures [merges-the-source-first-then-the-argument|C04,C05] trace(call.MergeAll(), call.Just(elems(obsA, obsB)), callfn.ANY(res(call.Just)))
 
@@ -41,6 +42,7 @@ package ro
 //@   props C04 C05
 //@   binds obsA obsB obsC
 //@   calls Just MergeAll fn:t0
+//@   params obsA
 //@   track call.ANY callfn.ANY
 //@   ensures [merges-the-source-first-then-the-arguments-in-order|C04,C05] trace(call.MergeAll(), call.Just(elems(obsA, obsB, obsC)), callfn.ANY(res(call.Just)))
 
@@ -48,6 +50,7 @@ package ro
 //@   props C04 C05
 //@   binds obsA obsB obsC obsD
 //@   calls Just MergeAll fn:t0
+//@   params obsA
 //@   track call.ANY callfn.ANY
 //@   ensures [merges-the-source-first-then-the-arguments-in-order|C04,C05] trace(call.MergeAll(), call.Just(elems(obsA, obsB, obsC, obsD)), callfn.ANY(res(call.Just)))
 
@@ -55,6 +58,7 @@ package ro
 //@   props C04 C05
 //@   binds obsA obsB obsC obsD obsE
 //@   calls Just MergeAll fn:t0
+//@   params obsA
 //@   track call.ANY callfn.ANY
 //@   ensures [merges-the-source-first-then-the-arguments-in-order|C04,C05] trace(call.MergeAll(), call.Just(elems(obsA, obsB, obsC, obsD, obsE)), callfn.ANY(res(call.Just)))
 
@@ -62,6 +66,7 @@ package ro
 //@   props C04 C05
 //@   binds obsA obsB obsC obsD obsE obsF
 //@   calls Just MergeAll fn:t0
+//@   params obsA
 //@   track call.ANY callfn.ANY
 //@   ensures [merges-the-source-first-then-the-arguments-in-order|C04,C05] trace(call.MergeAll(), call.Just(elems(obsA, obsB, obsC, obsD, obsE, obsF)), callfn.ANY(res(call.Just)))
 
@@ -69,6 +74,7 @@ package ro
 //@   props C04 C05 C15
 //@   binds source obs
 //@   calls ConcatAll Just fn:t0
+//@   params source
 //@   track call.ConcatAll call.Just callfn.ANY
 //@   ensures [concatenates-the-source-first-then-the-arguments-in-order|C04,C05,C15] trace(call.ConcatAll(), call.Just(_), callfn.ANY(res(call.Just))) && len(arg(call.Just, 0)) == len(obs) + 1 && arg(call.Just, 0)[0] == source && forall(j, 0, len(obs), arg(call.Just, 0)[j + 1] == obs[j])
 
@@ -76,6 +82,7 @@ package ro
 //@   props C04 C05
 //@   binds obsA observables
 //@   calls Just MergeAll fn:t8
+//@   params obsA
 //@   track call.MergeAll call.Just callfn.ANY
 //@   ensures [merges-the-source-first-then-the-arguments-in-order|C04,C05] trace(call.MergeAll(), call.Just(_), callfn.ANY(res(call.Just))) && len(arg(call.Just, 0)) == len(observables) + 1 && arg(call.Just, 0)[0] == obsA
 
